@@ -92,6 +92,17 @@ Proof.
   - apply product_skipn_le. exact H.
 Qed.
 
+(* stride(r) is exact as soon as the closed-form stride itself is representable -- zero extents included
+   (with a zero extent the size of the index space says nothing about the individual strides) *)
+Lemma lay_stride_value : forall l t e r, wf_ity t -> (r < rank e)%nat ->
+  0 <= spec_stride l (extents_list t e) r <= imax t ->
+  lay_stride l t e r = Ok (spec_stride l (extents_list t e) r).
+Proof.
+  intros l t e r Hwf Hr Hs. unfold lay_stride.
+  replace (r <? rank e)%nat with true by (symmetry; apply Nat.ltb_lt; exact Hr).
+  f_equal. destruct l; [apply lay_stride_raw_left | apply lay_stride_raw_right]; unfold spec_stride in Hs; try assumption; lia.
+Qed.
+
 (* with positive extents and a representable size every stride is exact *)
 Lemma lay_strides_spec : forall l t e, wf_ity t ->
   Forall (fun x => 0 < x) (extents_list t e) -> product (extents_list t e) <= imax t ->
